@@ -201,6 +201,113 @@ def c17_tables(n, seed, procs):
     return dict(evaluations=n, distinct=len(distinct), failures=fails[:12], samples=samples)
 
 
-ORACLES = dict(c12_history=c12_history, c13_resolve=c13_resolve, c17_tables=c17_tables,
+# ------------------------------------------------------------------ C08
+def c08_steps(n, seed, procs):
+    """every primitive step / option with random step sizes on leaf and composite functions, from leaf and
+    combination starting points: the returned points, the recorded samples and the side constraint are
+    compared with the documented relations, evaluated exactly at random integer leaf values"""
+    from fractions import Fraction as Fr
+    from PEPit import PEP, Point, Expression
+    import PEPit.functions as PF
+    from PEPit import primitive_steps as PS
+    from ocommon import eval_p, eval_e, dot
+    fails, samples, distinct = [], [], set()
+    GAM = [Fr(1, 2), Fr(1), Fr(2), Fr(1, 4), Fr(4), Fr(-1, 2)]
+    for it in range(n):
+        rnd = random.Random(seed * 9341 + it)
+        pep = PEP()
+        fl = [pep.declare_function(PF.ConvexFunction), pep.declare_function(PF.SmoothStronglyConvexFunction, mu=.1, L=1.), pep.declare_function(PF.ConvexIndicatorFunction, D=2.)]
+        f = rnd.choice(fl + [fl[0] + fl[1], 2 * fl[1] + fl[2]])
+        p0, p1 = Point(), Point()
+        x0 = rnd.choice([p0, p0 - 2 * p1, 0.5 * p0 + p1])
+        step = rnd.choice(["prox", "inexgrad_abs", "inexgrad_rel", "els", "linopt", "breggrad", "bregprox", "epssub", "gapI", "gapII", "gapIII"])
+        g = rnd.choice(GAM); gf = float(g); e_ = rnd.choice([Fr(1, 2), Fr(2), Fr(1, 4)]); ef = float(e_)
+        npts0 = len(f.list_of_points); ncons0 = len(f.list_of_constraints)
+        desc = dict(seed=seed, it=it, step=step, gamma=str(g), epsilon=str(e_), start=str(pdict(x0)), composite=not f.get_is_leaf())
+        distinct.add((step, str(g), not f.get_is_leaf(), str(pdict(x0))))
+        def vals():
+            V = {p.counter: [Fr(rnd.randint(-3, 3)) for _ in range(3)] for p in Point.list_of_leaf_points}
+            F = {e.counter: Fr(rnd.randint(-4, 4)) for e in Expression.list_of_leaf_expressions}
+            return V, F
+        def bad(msg): fails.append(dict(what="%s: %s" % (step, msg), oracle="c08_steps", input=desc, tags=["c08"]))
+        def lastcons(): return f.list_of_constraints[-1]
+        def lhs(c, V, F): return eval_e(c.expression, V, F)
+        sub = lambda a, b: [x - y for x, y in zip(a, b)]
+        sm = lambda c, a: [c * x for x in a]
+        if step == "prox":
+            x, gx, fx = PS.proximal_step(x0, f, gf); V, F = vals()
+            if eval_p(x, V) != sub(eval_p(x0, V), sm(g, eval_p(gx, V))): bad("x != x0 - gamma*g")
+            if len(f.list_of_points) != npts0 + 1 or f.list_of_points[-1] != (x, gx, fx): bad("does not record exactly the sample (x, g, f(x))")
+            if len(f.list_of_constraints) != ncons0: bad("records a side constraint")
+        elif step.startswith("inexgrad"):
+            rel = step.endswith("rel")
+            x, dx0, fx0 = PS.inexact_gradient_step(x0, f, gf, ef, notion="relative" if rel else "absolute"); V, F = vals()
+            trip = [t for t in f.list_of_points if pdict(t[0]) == pdict(x0)]
+            if len(trip) != 1: bad("%d samples recorded at x0 instead of 1" % len(trip)); continue
+            gx0 = trip[0][1]
+            if eval_p(x, V) != sub(eval_p(x0, V), sm(g, eval_p(dx0, V))): bad("x != x0 - gamma*d")
+            if len(f.list_of_constraints) != ncons0 + 1: bad("does not record exactly one side constraint"); continue
+            d = sub(eval_p(gx0, V), eval_p(dx0, V)); gg = eval_p(gx0, V)
+            want = dot(d, d) - e_ * e_ * (dot(gg, gg) if rel else 1)
+            if lhs(lastcons(), V, F) != want or lastcons().equality_or_inequality != "inequality": bad("side constraint is not ||g-d||^2 <= eps^2 (||g||^2)")
+        elif step == "els":
+            dirs = [rnd.choice([p0, p1, x0]) for _ in range(rnd.randint(0, 2))]
+            x, gx, fx = PS.exact_linesearch_step(x0, f, dirs); V, F = vals()
+            cs = f.list_of_constraints[ncons0:]
+            if len(cs) != 1 + len(dirs): bad("records %d constraints instead of %d" % (len(cs), 1 + len(dirs))); continue
+            if lhs(cs[0], V, F) != dot(sub(eval_p(x, V), eval_p(x0, V)), eval_p(gx, V)) or cs[0].equality_or_inequality != "equality": bad("main orthogonality is not <x - x0, g> = 0")
+            for c, d in zip(cs[1:], dirs):
+                if lhs(c, V, F) != dot(eval_p(d, V), eval_p(gx, V)) or c.equality_or_inequality != "equality": bad("direction orthogonality is not <d, g> = 0")
+            if not any(t[0] is x and t[1] is gx for t in f.list_of_points): bad("(x, g, f(x)) is not a recorded sample")
+        elif step == "linopt":
+            ind = fl[2]; n0 = len(ind.list_of_points)
+            x, gx, fx = PS.linear_optimization_step(x0, ind); V, F = vals()
+            if eval_p(gx, V) != sm(Fr(-1), eval_p(x0, V)): bad("recorded gradient is not -dir")
+            if len(ind.list_of_points) != n0 + 1 or ind.list_of_points[-1] != (x, gx, fx): bad("does not record exactly the sample (x, -dir, .)")
+        elif step == "breggrad":
+            x, sx, hx = PS.bregman_gradient_step(p1, x0, f, gf); V, F = vals()
+            if eval_p(sx, V) != sub(eval_p(x0, V), sm(g, eval_p(p1, V))): bad("s(x) != s(x0) - gamma*g(x0)")
+            if f.list_of_points[-1] != (x, sx, hx) or len(f.list_of_points) != npts0 + 1: bad("does not record exactly (x, s(x), h(x))")
+        elif step == "bregprox":
+            h = fl[1]; nh = len(h.list_of_points)
+            x, sx, hx, gx, fx = PS.bregman_proximal_step(x0, h, f, gf); V, F = vals()
+            if eval_p(sx, V) != sub(eval_p(x0, V), sm(g, eval_p(gx, V))): bad("s(x) != s(x0) - gamma*g(x)")
+            if not any(t == (x, gx, fx) for t in f.list_of_points) or not any(t == (x, sx, hx) for t in h.list_of_points): bad("samples on f and on the mirror map not both recorded")
+        elif step == "epssub":
+            x, g0, f0, eps = PS.epsilon_subgradient_step(x0, f, gf); V, F = vals()
+            if eval_p(x, V) != sub(eval_p(x0, V), sm(g, eval_p(g0, V))): bad("x != x0 - gamma*g0")
+            c = lastcons(); t = [t for t in f.list_of_points if t[1] is g0]
+            if len(t) != 1: bad("conjugate sample (y, g0, f(y)) not recorded exactly once"); continue
+            y, _, fy = t[0]
+            want = eval_e(f0, V, F) + (dot(eval_p(g0, V), eval_p(y, V)) - eval_e(fy, V, F)) - dot(eval_p(g0, V), eval_p(x0, V)) - eval_e(eps, V, F)
+            if lhs(c, V, F) != want or c.equality_or_inequality != "inequality": bad("side constraint is not f(x0) + f*(g0) - <g0,x0> <= eps")
+        else:
+            opt = {"gapI": "PD_gapI", "gapII": "PD_gapII", "gapIII": "PD_gapIII"}[step]
+            x, gx, fx, w, v, fw, eps = PS.inexact_proximal_step(x0, f, gf, opt=opt); V, F = vals()
+            c = lastcons()
+            if len(f.list_of_constraints) != ncons0 + 1: bad("does not record exactly one side constraint")
+            X, X0, Vv, W = eval_p(x, V), eval_p(x0, V), eval_p(v, V), eval_p(w, V)
+            epssub = eval_e(fx, V, F) - eval_e(fw, V, F) - dot(Vv, sub(X, W))
+            if step == "gapI":
+                e = [a - b + g * c_ for a, b, c_ in zip(X, X0, Vv)]; want = dot(e, e) / 2 + g * epssub - eval_e(eps, V, F)
+            elif step == "gapII":
+                e = [a - b + g * c_ for a, b, c_ in zip(X, X0, eval_p(gx, V))]; want = dot(e, e) / 2 - eval_e(eps, V, F)
+            else:
+                if Vv != sm(1 / g, sub(X0, X)): bad("v != (x0 - x)/gamma")
+                want = g * epssub - eval_e(eps, V, F)
+            if lhs(c, V, F) != want or c.equality_or_inequality != "inequality": bad("primal-dual gap constraint differs from the documented one")
+            need = 1 if step == "gapII" else 2
+            if len(f.list_of_points) != npts0 + need: bad("records %d samples instead of %d" % (len(f.list_of_points) - npts0, need))
+        if it < 2: samples.append(desc)
+        if len(fails) > 5: break
+    return dict(evaluations=n, distinct=len(distinct), failures=fails[:5], samples=samples)
+
+
+ORACLES = dict(c08_steps=c08_steps, c12_history=c12_history, c13_resolve=c13_resolve, c17_tables=c17_tables,
                c12_fresh=lambda n, seed, procs: c12_fresh(n, seed))
-PARALLEL = {"c13_resolve"}
+PARALLEL = {"c13_resolve", "c08_steps"}
+try:
+    import oracles4
+    ORACLES.update(oracles4.ORACLES)
+except ImportError:
+    pass
